@@ -68,7 +68,7 @@ def plan(tier, rnd):
                 items.append(dict(tid=tid, bl=bl, n=2500 if not heavy else 1200, exhaustive=True))
             for bl in ([4, 5, 6] if heavy else [4, 5, 6, 7]):
                 items.append(dict(tid=tid, bl=bl, n=150 if not heavy else {4: 60, 5: 20, 6: 4}[bl], exhaustive=False))
-    for kind in ("array_read", "array_write", "array_2d", "compose", "select_lazy", "reuse_after_guard", "under_true_guard", "three_level", "ignore_mode", "bool_typed_fresh", "region_list_growth"):
+    for kind in ("array_read", "array_write", "array_2d", "compose", "select_lazy", "reuse_after_guard", "under_true_guard", "three_level", "ignore_mode", "bool_typed_fresh", "region_list_growth", "region_local_variable"):
         for bl in (2, 3, 4):
             items.append(dict(tid=kind, bl=bl, n=(25 if tier == "quick" else 500), exhaustive=False))
     rnd.shuffle(items)
@@ -186,6 +186,27 @@ def special_case(kind, bl, rnd):
         else:
             body = "for _i in _range(c0 + 0, max=2, ctx=_):\n    _.out = _.out + [%s]\n_endfor(ctx=_)\n" % elem
         c.op_src = "_ = BranchingValues()\n_.out = [x0 + 0]\n" + body + "r = _.out[-1] + 0"
+        c.expr = c.op_src
+        return c
+    if kind == "region_local_variable":
+        # a variable first assigned inside a loop body / one branch and read after the region: the library refuses it when the region
+        # closes (nothing to judge then); if it ever lets the program through - also for a loop that makes no round, a branch that is
+        # not taken - the value read afterwards must be pinned down like any other result
+        c = Case(kind, "", bl, 0, [], [], "i")
+        a, b, g = rnd.randint(0, h), rnd.randint(1, max(1, h)), rnd.choice([0, 0, 1, 2])
+        c.inputs = [a, b, g]
+        c.pre_src = "x0 = PrivVal(I[0])\nx1 = PrivVal(I[1])\nn0 = PrivVal(I[2])\n"
+        elem = rnd.choice(["x0 * x1", "x0 / x1", "(x0 < x1) + 0", "x0 // x1", "x0 * x0 + x1"])
+        how = rnd.choice(["for", "for", "while", "if", "if_else"])
+        if how == "for":
+            body = "for _i in _range(n0, max=2, ctx=_):\n    _.t = %s\n    _.s = _.s + _.t\n_endfor(ctx=_)\n" % elem
+        elif how == "while":
+            body = "_k = 0\nwhile _while(n0 > _k, ctx=_) and _k < 2:\n    _k += 1\n    _.t = %s\n    _.s = _.s + _.t\n_endwhile(ctx=_)\n" % elem
+        elif how == "if":
+            body = "if _if(n0 > 0, ctx=_):\n    _.t = %s\n_endif(ctx=_)\n" % elem
+        else:
+            body = "if _if(n0 > 0, ctx=_):\n    _.s = _.s + 1\nif _else(ctx=_):\n    _.t = %s\n_endif(ctx=_)\n" % elem
+        c.op_src = "_ = BranchingValues()\n_.s = x0 + 0\n" + body + "r = _.t + _.s"
         c.expr = c.op_src
         return c
     if kind == "bool_typed_fresh":
